@@ -666,7 +666,9 @@ pub fn run(run: &mut Run) -> Result<(), String> {
                 plan.raws.push((Box::new(EpCheck { second: vec![Kind::Q], files: (0..8).collect() }), b(0, 0)));
                 plan.raws.push((Box::new(Caged { inner: Box::new(CheckPin { kings: vec![15, 55] }), variants: 3, mover: true }), b(0, 0)));
                 plan.raws.push((Box::new(CastlePlay { visitors: vec![Kind::R] }), b(if prop == "C01" { 3 } else { 2 }, 0)));
+                plan.raws.push((Box::new(RayFill { kings: vec![4, 27], max: 3 }), b(0, 0)));
             } else {
+                plan.raws.push((Box::new(RayFill { kings: vec![4, 27, 0, 63, 36, 15], max: 3 }), b(d1, 0)));
                 plan.raws.push((Box::new(CastlePlay { visitors: vec![Kind::R, Kind::Q, Kind::N] }), b(if prop == "C01" { 3 } else { 2 }, 0)));
                 plan.raws.push((Box::new(Caged { inner: Box::new(CheckPin { kings: vec![15, 55, 12, 52, 20, 44, 0, 63, 27] }), variants: 3, mover: true }), b(0, 0)));
                 plan.raws.push((Box::new(EpCheck { second: vec![Kind::B, Kind::R, Kind::Q], files: (0..8).collect() }), b(d1, 0)));
@@ -717,7 +719,9 @@ pub fn run(run: &mut Run) -> Result<(), String> {
                 plan.raws.push((Box::new(PromoUniverse { sliders: vec![Kind::R] }), b(1, 0)));
                 plan.raws.push((Box::new(Battery { enemy_kings: vec![35, 28, 0, 63, 4, 59], stride: 1 }), b(1, 0)));
                 plan.raws.push((Box::new(CastlePlay { visitors: vec![Kind::R] }), b(3, 0)));
+                plan.raws.push((Box::new(RayFill { kings: vec![27], max: 3 }), b(1, 0)));
             } else {
+                plan.raws.push((Box::new(RayFill { kings: vec![4, 27, 0, 63], max: 3 }), b(1, 1)));
                 plan.raws.push((Box::new(CastlePlay { visitors: vec![Kind::R, Kind::Q, Kind::N] }), b(3, 1)));
                 plan.raws.push((Box::new(Battery { enemy_kings: (0..64).collect(), stride: 1 }), b(1, 1)));
                 plan.raws.push((Box::new(EpCheck { second: vec![Kind::Q], files: (0..8).collect() }), b(1, 0)));
@@ -755,8 +759,10 @@ pub fn run(run: &mut Run) -> Result<(), String> {
                 plan.raws.push((Box::new(PinUniverse { kings: vec![27], far_side: true }), b(0, 0)));
                 plan.raws.push((Box::new(EpFile), b(0, 0)));
                 plan.raws.push((Box::new(EpCheck { second: vec![Kind::Q], files: (0..8).collect() }), b(0, 0)));
+                plan.raws.push((Box::new(RayFill { kings: vec![27], max: 3 }), b(0, 0)));
                 plan.lines = Some(b(1, 1));
             } else {
+                plan.raws.push((Box::new(RayFill { kings: vec![4, 27, 0, 63], max: 3 }), b(0, 0)));
                 plan.raws.push((Box::new(EpCheck { second: vec![Kind::B, Kind::R, Kind::Q], files: (0..8).collect() }), b(0, 0)));
                 plan.raws.push((Box::new(Caged { inner: Box::new(CheckPin { kings: vec![15, 55] }), variants: 3, mover: true }), b(0, 0)));
                 plan.raws.push((Box::new(PinUniverse { kings: vec![27, 36, 18], far_side: true }), b(0, 0)));
